@@ -9,7 +9,7 @@ A T1 site that can no longer be located keeps its reference value (tools/consts_
 is listed in Gen/stale_sites.json: the obligation "the model's constants are the code's constants"
 is then broken for the properties whose Coq files mention that constant (tools/check.py).
 A table or schema that can no longer be read is an error (exit 2) for every property.
-T3 (tools/gen_leaves.py) is run from here too: Gen/Leaves{Utils,Line,SB}.v.
+T3 (tools/gen_leaves.py) is run from here too: Gen/Leaves{Utils,Line,SB,RSN,RSW,QV}.v.
 Files are rewritten only when their content changes, so cached .vo files survive.
 """
 import os, re, sys
@@ -446,7 +446,8 @@ def main():
     # A source the translator cannot read must not stop the other properties: a stub is written
     # instead, so that exactly the obligations that depend on Proofs/LeavesOk.v no longer check.
     import subprocess
-    for group, fname in (("utils", "LeavesUtils.v"), ("line", "LeavesLine.v"), ("sb", "LeavesSB.v")):
+    for group, fname in (("utils", "LeavesUtils.v"), ("line", "LeavesLine.v"), ("sb", "LeavesSB.v"),
+                         ("rsn", "LeavesRSN.v"), ("rsw", "LeavesRSW.v"), ("qv", "LeavesQV.v")):
         leaves = os.path.join(OUT, fname)
         p = subprocess.run([sys.executable, os.path.join(os.path.dirname(os.path.abspath(__file__)), "gen_leaves.py"),
                             "--repo", REPO, "--out", leaves, "--group", group],
